@@ -1,4 +1,5 @@
 import Cellml.Tie.ConvertPw
+import Cellml.Tie.ConvertN
 
 /-! # Tie: `UnitCalculator.convert_expression_recursively` (generated from units.py) = `Convert.convert` (hand model)
 
@@ -7,7 +8,10 @@ import Cellml.Tie.ConvertPw
     generated code computes the model - result triple `(new_expr, was_converted, actual_units)` and exception class -
     for every expression in `wfTop` and every target (or `None`).
     Parts: `ConvertCases.lean` (helpers `maybe_convert_expr` = `Convert.maybeConv`, `maybe_convert_child`; one lemma per
-    constructor), `ConvertPw.lean` (the Piecewise loop). -/
+    constructor), `ConvertN.lean` (the n-ary classes `Add`, `Mul`, `And`, `Or`, `Max`/`Min`/…: the generated loops run
+    over the FLAT operand list along the left spine of the node - `add (add a b) c` is `Add(a, b, c)` - and equal the
+    model's nested recursion: `add_loop`, `mul_loop`, `and_loop`, `or_loop`, `fn_loop`), `ConvertPw.lean` (the Piecewise
+    loop). The closed form (recursion closed, no `modelRec`) is `Cellml/Props/C05Gen.lean`. -/
 
 namespace Cellml.Tie.PConvert
 open Units Infer Convert Cellml.Gen
